@@ -91,6 +91,11 @@ def ts_lines(rng, n):
             if s <= 253402300799:
                 lines.append('cts 1 8 %d %d' % (s, ms * 1000))
             lines.append('pts 1 8 %s' % (s * 1000 + ms).to_bytes(8, 'big').hex())
+    for s in secs[:40]:     # aware datetimes with a non-zero UTC offset (what datetime.now().astimezone() gives)
+        if s > 86400:
+            off = rng.choice([60, 120, -300, 330, 345, -720, 840])
+            lines.append('cts 0 %d %d 0 %d' % (rng.choice([4, 8]), s, off))
+            lines.append('cts 1 8 %d %d %d' % (s, rng.choice([0, 999]) * 1000, off))
     for s in secs:
         for w in (4, 8):
             lines.append('cts 0 %d %d 0' % (w, s))
@@ -237,7 +242,8 @@ def run(chk):
         if not (o.startswith('ERR InvalidValue') or o.startswith('LEAK')):
             nontrivial.add(l)
     if br.ok:
-        model_out = common.run_model(lines)
+        # an instant given in a zone with a UTC offset is the same instant: the model sees the command without the offset
+        model_out = common.run_model([' '.join(l.split(' ')[:5]) if l.startswith('cts ') else l for l in lines])
         diffs = [(l, m, i) for l, m, i in zip(lines, model_out, impl_out) if m != i]
         for l, m, i in diffs[:5]:
             if not chk.violations:
